@@ -190,7 +190,10 @@ def parsePatternAux : Nat → List Char → List PArg → Except UErr (List PArg
 
 def utf8 (s : List Char) : List UInt8 := (String.ofList s).toUTF8.toList
 
-/-- `types.NewPattern(components...)` -/
+/-- `types.NewPattern(components...)`.  A wildcard after a component with an empty literal sets that component's
+    wildcard flag instead of starting a new component (since `fix: NewPattern keeps a wildcard which follows a leading
+    empty literal`; before, it was dropped, which is right after a wildcard component and wrong after a leading empty
+    literal — `ParsePattern` never passes such a list, so the parser's results are unchanged). -/
 def newPattern : List PArg → Pattern → Pattern
   | [], acc => acc
   | .lit s :: rest, acc =>
@@ -200,7 +203,9 @@ def newPattern : List PArg → Pattern → Pattern
   | .wild :: rest, acc =>
     (match acc.reverse with
      | [] => newPattern rest [⟨true, []⟩]
-     | last :: _ => if last.literal.isEmpty then newPattern rest acc else newPattern rest (acc ++ [⟨true, []⟩]))
+     | last :: revInit =>
+       if last.literal.isEmpty then newPattern rest ((⟨true, last.literal⟩ :: revInit).reverse)
+       else newPattern rest (acc ++ [⟨true, []⟩]))
 
 /-- `parser.ParsePattern(v)` -/
 def parsePattern (raw : List Char) : Except UErr Pattern :=
